@@ -1,10 +1,11 @@
-#!/bin/sh
+#!/bin/bash
 # usage: try_patch.sh <patch.diff> <property> [extra check args...]
-# Applies a seeded change to /repo, runs the property's check, and always restores /repo.
+# Runs the property's check against a scratch worktree of /repo's HEAD with the change applied
+# (VERIF_REPO); /repo itself is never touched, so checks running against /repo are not disturbed.
 P="$1"; ID="$2"; shift 2
-cd /repo || exit 2
-if ! git diff --quiet; then echo "/repo is dirty; refusing"; exit 2; fi
-git apply "$P" || { echo "patch does not apply"; exit 2; }
-trap 'git -C /repo checkout -- . ; git -C /repo clean -fdq' EXIT INT TERM PIPE HUP
-cd /verif && ./bin/check "$ID" "$@"
+WT=$(mktemp -d /tmp/trywt-XXXXXX); rmdir "$WT"
+git -C /repo worktree add --detach "$WT" HEAD >/dev/null 2>&1 || { echo "worktree failed"; exit 2; }
+trap 'git -C /repo worktree remove --force "$WT" >/dev/null 2>&1; rm -rf "$WT"' EXIT INT TERM PIPE HUP
+git -C "$WT" apply "$P" || { echo "patch does not apply"; exit 2; }
+cd /verif && VERIF_REPO="$WT" ./bin/check "$ID" "$@"
 echo "check exit=$?"
